@@ -79,6 +79,7 @@ from apischema.types import AnyType, NoneType, Undefined, UndefinedType
 from apischema.typing import (
     get_args,
     get_origin,
+    is_literal,
     is_new_type,
     is_type,
     is_type_var,
@@ -93,6 +94,7 @@ from apischema.utils import (
     get_origin_or_type2,
     identity,
     is_union_of,
+    literal_values,
     opt_or,
 )
 from apischema.visitor import Unsupported
@@ -127,6 +129,9 @@ def expected_class(tp: AnyType) -> type:
         return expected_class(origin.__supertype__)
     elif is_type_var(origin) or origin is Any:
         return object
+    elif is_literal(tp):
+        # isinstance accepts a tuple of classes
+        return tuple({v.__class__ for v in literal_values(get_args(tp))})  # type: ignore
     else:
         raise TypeError(f"{tp} is not supported in union serialization")
 
